@@ -153,10 +153,6 @@ func needSep(a, b string) bool {
 	if isNameChar(ca) && isNameChar(cb) {
 		return true
 	}
-	// "a" ":" would glue into a QName-like token sequence; keep ':' usage to glue only.
-	if ca == '*' && cb == ':' || ca == ':' && cb == '*' {
-		return true
-	}
 	if ca == '/' && cb == '/' { // "/" "/" must not become "//"
 		return true
 	}
